@@ -3,6 +3,18 @@
 PENDING = "check not built yet in this session (planned: see DESIGN.md section 4); not claimed until its rule module exists"
 
 CLAIMS = {
+    "C02": {
+        "engine": "E2 alias/effect analysis + linearity typing",
+        "category": "other",
+        "technique": "static analysis: interprocedural may-alias/mutation summaries (fixpoint over the call graph), purity check, abstract interpretation over the C-linearity lattice {Z,K,L,A,N}",
+        "text": "Decides for every Linop._apply, Prox._prox and public array function of the anchored modules that no path writes through an alias "
+                "of an array argument or of an array captured on self (documented out-parameters excepted), that _apply/_prox keep no writable state "
+                "and reach no RNG, and that every value an operator returns is C-linear in its input (conj on one side only, .real, abs, +bias are rejected). "
+                "This quantifies over all inputs and call histories at once, which sampled tests cannot.",
+        "design_ref": "DESIGN.md section 4 C02",
+        "note": "Assume/guarantee: opaque callables (child operators, user proxes) do not mutate arguments, which this rule establishes class by class. "
+                "numpy view/copy semantics are a table (VIEW_*/copy lists in effects.py). GPU arms pruned. Bit-level determinism of numpy not decided.",
+    },
     "C12": {
         "engine": "E3 value numbering + E2 alias analysis",
         "category": "other",
